@@ -203,6 +203,31 @@ func c32ShapeSameName(from, to *hTable) bool {
 	return false
 }
 
+// c32Overlap mirrors dolt's rename detection (diff.schemasOverlap): the tables share a column.
+func c32Overlap(a, b *hTable) bool {
+	for _, x := range a.Cols {
+		for _, y := range b.Cols {
+			if x.Name == y.Name && (x.UID == y.UID || x.Type == y.Type) {
+				return true
+			}
+		}
+	}
+	return false
+}
+
+// c32ShapeRenameDropIdx: (for a possibly renamed table) an index of `from` is absent at `to`.
+func c32ShapeRenameDropIdx(from, to *hTable) bool {
+	if from == nil || to == nil {
+		return false
+	}
+	for in := range from.Idx {
+		if _, ok := to.Idx[in]; !ok {
+			return true
+		}
+	}
+	return false
+}
+
 // c32ShapePKIndex: the table is created by the patch and has an index on exactly its key columns.
 func c32ShapePKIndex(from, to *hTable) bool {
 	if from != nil || to == nil {
@@ -231,7 +256,9 @@ type c32Stats struct {
 	added, removed, modified        int
 	schemaPairs, escaped, patchStmt int
 	narrowSkipped, excluded         int
-	renamePairs                     int
+	renamePairs, unspecified        int
+	excludedBy                      map[string]int
+	patched, pkSkipped              int
 }
 
 type c32Checker struct {
@@ -549,6 +576,20 @@ func (c *c32Checker) pair(fi, ti int, opts c32Opts) {
 				}
 			}
 		}
+		if problem != "" && (from == nil || to == nil) {
+			// a rename partner with another primary key: dolt pairs the tables (overlapping column
+			// tags) but cannot diff them; what it renders then is not specified
+			for _, other := range h.cfg.TablePool {
+				if other == name || (fc.State[other] != nil && tc.State[other] != nil) {
+					continue
+				}
+				if (from == nil && fc.State[other] != nil && c32PKChanged(fc.State[other], to)) || (to == nil && tc.State[other] != nil && c32PKChanged(from, tc.State[other])) {
+					problem = ""
+					renamed[name] = true
+					c.st.unspecified++
+				}
+			}
+		}
 		if problem != "" {
 			c.fail("%s", problem)
 		}
@@ -792,34 +833,58 @@ func (c *c32Checker) patch(fi, ti int) {
 	for _, name := range h.cfg.TablePool {
 		from, to := fc.State[name], tc.State[name]
 		if from != nil && to != nil && c32PKChanged(from, to) {
+			c.st.pkSkipped++
 			return // primary key change: dolt_patch documents that it cannot produce the data diff
 		}
 		if from != nil && to != nil && c32Narrows(from, to) {
 			c.st.narrowSkipped++
 			return // see the assumptions: schema statements come first, a narrowing MODIFY may not fit `from`'s rows
 		}
-		if from != nil && to == nil && c32Excluded(c32FRenameDropIdx) {
-			// possibly renamed to a table that exists only at `to` and lacks one of its indexes
-			shape := false
+	}
+	// pairs of (table at `from`, table at `to`) that dolt may relate: the same name, or (a possible
+	// rename) a name that exists only at `from` with a name that exists only at `to`
+	type cand struct {
+		from, to *hTable
+		rename   bool
+	}
+	var cands []cand
+	for _, name := range h.cfg.TablePool {
+		from, to := fc.State[name], tc.State[name]
+		if from != nil || to != nil {
+			cands = append(cands, cand{from, to, false})
+		}
+		if from != nil && to == nil {
 			for _, other := range h.cfg.TablePool {
-				if o := tc.State[other]; o != nil && fc.State[other] == nil {
-					for in := range from.Idx {
-						if _, ok := o.Idx[in]; !ok {
-							shape = true
-						}
-					}
+				if o := tc.State[other]; o != nil && fc.State[other] == nil && c32Overlap(from, o) {
+					cands = append(cands, cand{from, o, true})
 				}
 			}
-			if shape {
-				c.st.excluded++
-				return
-			}
 		}
-		if (c32ShapeDropIdxCol(from, to) && c32Excluded(c32FDropIdxCol)) || (c32ShapePKIndex(from, to) && c32Excluded(c32FPKIndex)) ||
-			(c32ShapeRenamedNull(from, to) && c32Excluded(c32FRenamedNull)) || (c32ShapeRenameOnto(from, to) && c32Excluded(c32FRenameOnto)) ||
-			(c32ShapeDefaultNull(from, to) && c32Excluded(c32FDefaultNull)) || (c32ShapeDefaultChange(from, to) && c32Excluded(c32FDefaultChange)) ||
-			(c32ShapeSameName(from, to) && c32Excluded(c32FSameName)) {
+	}
+	for _, cd := range cands {
+		from, to := cd.from, cd.to
+		shape := ""
+		switch {
+		case cd.rename && c32ShapeRenameDropIdx(from, to) && c32Excluded(c32FRenameDropIdx):
+			shape = c32FRenameDropIdx
+		case c32ShapeDropIdxCol(from, to) && c32Excluded(c32FDropIdxCol):
+			shape = c32FDropIdxCol
+		case !cd.rename && c32ShapePKIndex(from, to) && c32Excluded(c32FPKIndex):
+			shape = c32FPKIndex
+		case c32ShapeRenamedNull(from, to) && c32Excluded(c32FRenamedNull):
+			shape = c32FRenamedNull
+		case c32ShapeRenameOnto(from, to) && c32Excluded(c32FRenameOnto):
+			shape = c32FRenameOnto
+		case c32ShapeDefaultNull(from, to) && c32Excluded(c32FDefaultNull):
+			shape = c32FDefaultNull
+		case c32ShapeDefaultChange(from, to) && c32Excluded(c32FDefaultChange):
+			shape = c32FDefaultChange
+		case c32ShapeSameName(from, to) && c32Excluded(c32FSameName):
+			shape = c32FSameName
+		}
+		if shape != "" {
 			c.st.excluded++
+			c.st.excludedBy[shape]++
 			return
 		}
 	}
@@ -897,13 +962,14 @@ func (c *c32Checker) patch(fi, ti int) {
 			shape := c32ShapeColOrder(fc.State[name], want)
 			if fc.State[name] == nil { // possibly renamed from a table that exists only at `from`
 				for _, other := range h.cfg.TablePool {
-					if tc.State[other] == nil && c32ShapeColOrder(fc.State[other], want) {
+					if tc.State[other] == nil && fc.State[other] != nil && c32Overlap(fc.State[other], want) && c32ShapeColOrder(fc.State[other], want) {
 						shape = true
 					}
 				}
 			}
 			if shape {
 				c.st.excluded++
+				c.st.excludedBy[c32FColOrder+"(schema text only)"]++
 				continue
 			}
 		}
@@ -912,6 +978,7 @@ func (c *c32Checker) patch(fi, ti int) {
 		}
 		c.st.evals++
 	}
+	c.st.patched++
 	c.p.MustExec(c.rt, "USE `"+h.db+"`")
 	_ = h.w.Exec(fmt.Sprintf("CALL dolt_branch('-D','%s')", br))
 }
@@ -930,14 +997,14 @@ func (c *c32Checker) diffTable() {
 		all, err := h.w.Query(q)
 		c.st.evals++
 		if err != nil {
-			pkChanged := false
+			schChanged := false
 			for _, a := range anc {
-				if old := h.Commits[a].State[name]; old != nil && c32PKChanged(old, cur) {
-					pkChanged = true
+				if old := h.Commits[a].State[name]; old != nil && !c32SameSchema(old, cur) {
+					schChanged = true
 				}
 			}
-			if pkChanged {
-				continue // an older table of this name had another primary key: dolt_diff_<t> refuses ("could not map primary key column")
+			if schChanged {
+				continue // an older table of this name had another schema: dolt_diff_<t> maps old rows onto the current schema and may refuse (dolt issue 11140)
 			}
 			c.fail("C32 dolt_diff_<t>: %s failed: %v", q, err)
 		}
@@ -1093,7 +1160,7 @@ func c32Run(t *testing.T, rec *vh.Recorder, part string, quick, thorough int, cf
 		}
 		h := newHist(rt, srv, db, w, c)
 		h.build()
-		st := &c32Stats{}
+		st := &c32Stats{excludedBy: map[string]int{}}
 		chk := &c32Checker{rt: rt, h: h, p: p, st: st}
 		for fi := range h.Commits {
 			for ti := range h.Commits {
@@ -1122,6 +1189,12 @@ func c32Run(t *testing.T, rec *vh.Recorder, part string, quick, thorough int, cf
 		if st.patchStmt > 0 {
 			classes = append(classes, "patch_applied")
 		}
+		for id, n := range st.excludedBy {
+			rec.Class("pairs_excluded:"+id, n)
+		}
+		rec.Class("pairs", st.pairs)
+		rec.Class("pairs_patch_applied", st.patched)
+		rec.Class("pairs_patch_skipped_narrowing_or_pkchange", st.narrowSkipped+st.pkSkipped)
 		rec.Evals(st.evals)
 		rec.Excluded(st.excluded)
 		nontrivial := st.added > 0 && st.removed > 0 && st.modified > 0 && st.schemaPairs > 0 && st.escaped > 0
